@@ -5,6 +5,7 @@
 import numpy as np
 import numpy.typing as npt
 import pandas as pd
+from scipy.special import xlogy
 
 from ..dynamic.time_corr import time_correlation
 from ..reader.reader_utils import Snapshots
@@ -37,7 +38,8 @@ def s2_integral(gr: npt.NDArray, gr_bins: npt.NDArray, ndim: int = 3) -> float:
     Return:
         integral results to get S2 (float)
     """
-    y = gr * np.log(gr) - gr + 1
+    # g ln g -> 0 for g -> 0 (the smeared g(r) underflows to exactly 0 in sparse systems)
+    y = xlogy(gr, gr) - gr + 1
     y *= np.power(gr_bins, ndim - 1)
     # np.trapz was removed in numpy 2 (renamed to np.trapezoid)
     trapezoid = getattr(np, "trapezoid", None) or getattr(np, "trapz")
